@@ -242,6 +242,26 @@ func hasNilSlice(g orb.Geometry) bool {
 
 func init() {
 	register("geojson", func(c *ctx) {
+		// values that every event decodes into again (a decoder loop reusing one variable), and the bytes handed out
+		// by the previous marshal calls (to see that later calls do not write to them)
+		reG, reGb := &geojson.Geometry{}, &geojson.Geometry{}
+		reF, reFb := &geojson.Feature{}, &geojson.Feature{}
+		reFC, reFCb := &geojson.FeatureCollection{}, &geojson.FeatureCollection{}
+		var prevOut, prevCopy [][]byte
+		stable := func(outs ...[]byte) int {
+			ok := 1
+			for i := range prevOut {
+				if !bytes.Equal(prevOut[i], prevCopy[i]) {
+					ok = 0
+				}
+			}
+			prevOut, prevCopy = nil, nil
+			for _, o := range outs {
+				prevOut = append(prevOut, o)
+				prevCopy = append(prevCopy, append([]byte{}, o...))
+			}
+			return ok
+		}
 		n := c.pick(4000, 80000)
 		for i := 0; i < n; i++ {
 			in := newWkbIntern()
@@ -255,7 +275,7 @@ func init() {
 					}
 				}
 				gm, _ := encGeom(g, in.fn())
-				e := jdoc{"k": "geom", "g": gm, "err": "", "same": 0, "nt": 1}
+				e := jdoc{"k": "geom", "g": gm, "err": "", "same": 0, "nt": 1, "routes": 0, "stable": 0}
 				setCurrent("geojson.Geometry", gm)
 				site := guard(func() {
 					data, err := geojson.NewGeometry(g).MarshalJSON()
@@ -290,12 +310,31 @@ func init() {
 						return
 					}
 					e["decb"], _ = encGeom(bg.Geometry(), in.fn())
+					// the same bytes decoded into values that held earlier results
+					if err := json.Unmarshal(data, reG); err != nil {
+						e["err"] = "reused value: " + err.Error()
+						return
+					}
+					e["re"], _ = encGeom(reG.Geometry(), in.fn())
+					if err := bson.Unmarshal(bdata, reGb); err != nil {
+						e["err"] = "bson, reused value: " + err.Error()
+						return
+					}
+					e["reb"], _ = encGeom(reGb.Geometry(), in.fn())
+					// other routes to the same document: json.Marshal, a Geometry literal around the value
+					viaStd, _ := json.Marshal(geojson.NewGeometry(g))
+					lit, _ := (&geojson.Geometry{Coordinates: g}).MarshalJSON()
+					blit, _ := bson.Marshal(&geojson.Geometry{Coordinates: g})
+					if bytes.Equal(viaStd, data) && bytes.Equal(lit, data) && bytes.Equal(blit, bdata) {
+						e["routes"] = 1
+					}
+					e["stable"] = stable(data, again)
 				})
 				if site != "" {
 					c.emit(panicEvent("geojson.Geometry", site, gm))
 					continue
 				}
-				for _, k := range []string{"doc", "dec", "decb"} {
+				for _, k := range []string{"doc", "dec", "decb", "re", "reb"} {
 					if _, ok := e[k]; !ok {
 						e[k] = dNull()
 					}
@@ -304,7 +343,7 @@ func init() {
 			case 1, 2: // feature
 				f := c02Feature(c)
 				fm := featModel(in, f)
-				e := jdoc{"k": "feat", "f": fm, "err": "", "same": 0, "nt": 1}
+				e := jdoc{"k": "feat", "f": fm, "err": "", "same": 0, "nt": 1, "routes": 0, "stable": 0}
 				setCurrent("geojson.Feature", fm)
 				site := guard(func() {
 					data, err := f.MarshalJSON()
@@ -339,12 +378,27 @@ func init() {
 						return
 					}
 					e["decb"] = featModel(in, bf)
+					if err := json.Unmarshal(data, reF); err != nil {
+						e["err"] = "reused value: " + err.Error()
+						return
+					}
+					e["re"] = featModel(in, reF)
+					if err := bson.Unmarshal(bdata, reFb); err != nil {
+						e["err"] = "bson, reused value: " + err.Error()
+						return
+					}
+					e["reb"] = featModel(in, reFb)
+					viaStd, _ := json.Marshal(f)
+					if bytes.Equal(viaStd, data) {
+						e["routes"] = 1
+					}
+					e["stable"] = stable(data, again)
 				})
 				if site != "" {
 					c.emit(panicEvent("geojson.Feature", site, fm))
 					continue
 				}
-				for _, k := range []string{"doc", "dec", "decb"} {
+				for _, k := range []string{"doc", "dec", "decb", "re", "reb"} {
 					if _, ok := e[k]; !ok {
 						e[k] = dNull()
 					}
@@ -389,7 +443,7 @@ func init() {
 					return jdoc{"feats": feats, "bbox": bbox, "extra": ex}
 				}
 				m := model(fc)
-				e := jdoc{"k": "fc", "fc": m, "err": "", "same": 0, "nt": 1}
+				e := jdoc{"k": "fc", "fc": m, "err": "", "same": 0, "nt": 1, "routes": 0, "stable": 0}
 				setCurrent("geojson.FeatureCollection", m)
 				site := guard(func() {
 					data, err := fc.MarshalJSON()
@@ -424,12 +478,27 @@ func init() {
 						return
 					}
 					e["decb"] = model(bfc)
+					if err := json.Unmarshal(data, reFC); err != nil {
+						e["err"] = "reused value: " + err.Error()
+						return
+					}
+					e["re"] = model(reFC)
+					if err := bson.Unmarshal(bdata, reFCb); err != nil {
+						e["err"] = "bson, reused value: " + err.Error()
+						return
+					}
+					e["reb"] = model(reFCb)
+					viaStd, _ := json.Marshal(fc)
+					if bytes.Equal(viaStd, data) {
+						e["routes"] = 1
+					}
+					e["stable"] = stable(data, again)
 				})
 				if site != "" {
 					c.emit(panicEvent("geojson.FeatureCollection", site, m))
 					continue
 				}
-				for _, k := range []string{"doc", "dec", "decb"} {
+				for _, k := range []string{"doc", "dec", "decb", "re", "reb"} {
 					if _, ok := e[k]; !ok {
 						e[k] = dNull()
 					}
